@@ -5,6 +5,8 @@ type nat =
 | O
 | S of nat
 
+val option_map : ('a1 -> 'a2) -> 'a1 option -> 'a2 option
+
 val fst : ('a1 * 'a2) -> 'a1
 
 val snd : ('a1 * 'a2) -> 'a2
@@ -39,6 +41,8 @@ val nth_error : 'a1 list -> nat -> 'a1 option
 
 val map : ('a1 -> 'a2) -> 'a1 list -> 'a2 list
 
+val flat_map : ('a1 -> 'a2 list) -> 'a1 list -> 'a2 list
+
 val fold_left : ('a1 -> 'a2 -> 'a1) -> 'a2 list -> 'a1 -> 'a1
 
 val fold_right : ('a2 -> 'a1 -> 'a1) -> 'a1 -> 'a2 list -> 'a1
@@ -65,6 +69,14 @@ type z =
 
 module Pos :
  sig
+  type mask =
+  | IsNul
+  | IsPos of positive
+  | IsNeg
+ end
+
+module Coq_Pos :
+ sig
   val succ : positive -> positive
 
   val add : positive -> positive -> positive
@@ -73,11 +85,34 @@ module Pos :
 
   val pred_double : positive -> positive
 
+  type mask = Pos.mask =
+  | IsNul
+  | IsPos of positive
+  | IsNeg
+
+  val succ_double_mask : mask -> mask
+
+  val double_mask : mask -> mask
+
+  val double_pred_mask : positive -> mask
+
+  val sub_mask : positive -> positive -> mask
+
+  val sub_mask_carry : positive -> positive -> mask
+
+  val sub : positive -> positive -> positive
+
   val mul : positive -> positive -> positive
+
+  val size_nat : positive -> nat
 
   val compare_cont : comparison -> positive -> positive -> comparison
 
   val compare : positive -> positive -> comparison
+
+  val ggcdn : nat -> positive -> positive -> positive * (positive * positive)
+
+  val ggcd : positive -> positive -> positive * (positive * positive)
 
   val iter_op : ('a1 -> 'a1 -> 'a1) -> positive -> 'a1 -> 'a1
 
@@ -104,12 +139,48 @@ module Z :
 
   val compare : z -> z -> comparison
 
+  val sgn : z -> z
+
+  val leb : z -> z -> bool
+
   val ltb : z -> z -> bool
+
+  val abs : z -> z
 
   val to_nat : z -> nat
 
   val of_nat : nat -> z
+
+  val to_pos : z -> positive
+
+  val ggcd : z -> z -> z * (z * z)
  end
+
+val pow_pos : ('a1 -> 'a1 -> 'a1) -> 'a1 -> positive -> 'a1
+
+type q = { qnum : z; qden : positive }
+
+val inject_Z : z -> q
+
+val qle_bool : q -> q -> bool
+
+val qplus : q -> q -> q
+
+val qmult : q -> q -> q
+
+val qopp : q -> q
+
+val qminus : q -> q -> q
+
+val qinv : q -> q
+
+val qdiv : q -> q -> q
+
+val qpower_positive : q -> positive -> q
+
+val qpower : q -> z -> q
+
+val qred : q -> q
 
 type sx =
 | SZ of z
@@ -127,6 +198,10 @@ val opt_all : 'a1 option list -> 'a1 list option
 
 val dlist : (sx -> 'a1 option) -> sx -> 'a1 list option
 
+val dq : sx -> q option
+
+val dopt : (sx -> 'a1 option) -> sx -> 'a1 option option
+
 val ez : z -> sx
 
 val enat : nat -> sx
@@ -135,6 +210,8 @@ val ebool : bool -> sx
 
 val elist : ('a1 -> sx) -> 'a1 list -> sx
 
+val eq_ : q -> sx
+
 val eopt : ('a1 -> sx) -> 'a1 option -> sx
 
 val upd : 'a1 list -> nat -> 'a1 -> 'a1 list
@@ -142,6 +219,12 @@ val upd : 'a1 list -> nat -> 'a1 -> 'a1 list
 val insert_uniq : nat -> nat list -> nat list
 
 val sort_uniq : nat list -> nat list
+
+val qltb : q -> q -> bool
+
+val qsum : q list -> q
+
+val gt_ext : q -> q option -> bool
 
 type err =
 | ValueError
@@ -218,6 +301,92 @@ type 'r iter_out =
 
 val iter_next : 'a1 store -> iter -> iter * 'a1 iter_out
 
+val better : ('a1 -> q) -> 'a1 -> 'a1 -> 'a1
+
+val fam : ('a1 -> q) -> 'a1 option -> 'a1 list -> 'a1 option
+
+val first_argmax : ('a1 -> q) -> 'a1 list -> 'a1 option
+
+type 'p cand = { c_cell : nat; c_obj : q; c_pay : 'p }
+
+type 'p row = { r_obj : q; r_thr : q; r_pay : 'p }
+
+type cfg = { cells : nat; tmin : q option; lr : q; offset : q }
+
+val look : 'a1 row store -> nat -> bool * 'a1 row option
+
+val thr_ext : cfg -> (bool * 'a1 row option) -> q option
+
+val thr_base : cfg -> (bool * 'a1 row option) -> q
+
+val can_insert : cfg -> 'a1 row store -> 'a1 cand -> bool
+
+val status_of : cfg -> 'a1 row store -> 'a1 cand -> z
+
+val value_of : cfg -> 'a1 row store -> 'a1 cand -> q
+
+val batch_thr : cfg -> q -> 'a1 cand list -> q
+
+val new_thr : cfg -> 'a1 row store -> 'a1 cand -> 'a1 cand list -> q
+
+val group : nat -> 'a1 cand list -> 'a1 cand list
+
+val collect : (nat -> 'a1 row option) -> nat list -> (nat * 'a1 row) list
+
+val winner_row :
+  cfg -> 'a1 row store -> 'a1 cand list -> nat -> 'a1 row option
+
+val batch_winners :
+  cfg -> 'a1 row store -> 'a1 cand list -> (nat * 'a1 row) list
+
+val single_ok : cfg -> 'a1 row store -> 'a1 cand -> bool
+
+val single_thr : cfg -> 'a1 row store -> 'a1 cand -> q
+
+val single_winners : cfg -> 'a1 row store -> 'a1 cand -> (nat * 'a1 row) list
+
+val single_status : cfg -> 'a1 row store -> 'a1 cand -> z
+
+val old_obj : 'a1 row store -> nat -> q
+
+val sum_delta : 'a1 row store -> (nat * 'a1 row) list -> q
+
+val best_index : (nat * 'a1 row) list -> nat option
+
+type stats = { st_num : nat; st_cov : q; st_qd : q; st_norm : q;
+               st_max : q option; st_mean : q option }
+
+type 'p archive = { a_store : 'p row store; a_sum : q; a_stats : stats;
+                    a_best : (nat * 'p row) option }
+
+val stats0 : stats
+
+val arch_init : cfg -> 'a1 archive
+
+val qnat : nat -> q
+
+val stats_update :
+  cfg -> 'a1 archive -> 'a1 row store -> q -> nat -> 'a1 archive
+
+val commit :
+  cfg -> 'a1 archive -> 'a1 row store -> (nat * 'a1 row) list -> 'a1 archive
+
+val add1 :
+  cfg -> 'a1 archive -> 'a1 cand list -> 'a1 archive * (z list * q list)
+
+val add_single : cfg -> 'a1 archive -> 'a1 cand -> 'a1 archive * (z * q)
+
+val clear0 : cfg -> 'a1 archive -> 'a1 archive
+
+val content : 'a1 archive -> nat -> 'a1 row option
+
+val retrieve_cells :
+  'a1 archive -> nat list -> (bool * (nat * 'a1 row) option) list
+
+val sample : 'a1 archive -> nat list -> (nat * 'a1 row option) list result
+
+val elites : 'a1 archive -> (nat * 'a1 row option) list
+
 val err_code : err -> z
 
 val eres : ('a1 -> sx) -> 'a1 result -> sx
@@ -235,3 +404,27 @@ val run_op : st -> sx -> st * sx
 val run_ops : st -> sx list -> sx list
 
 val run_C13 : sx -> sx
+
+val dcand : sx -> z cand option
+
+val dcfg : sx -> cfg option
+
+val erow_ : z row -> sx
+
+val eirow : (nat * z row) -> sx
+
+val eiorow : (nat * z row option) -> sx
+
+val estats : z archive -> sx
+
+val drow : sx -> (nat * z row) option
+
+val load_state :
+  cfg -> (nat * z row) list -> q -> q option -> (nat * z row) option -> z
+  archive
+
+val arch_op : cfg -> z archive -> sx -> z archive * sx
+
+val arch_ops : cfg -> z archive -> sx list -> sx list
+
+val run_ARCH : sx -> sx
